@@ -426,6 +426,27 @@ def tie_matrices(draw):
 
 ell_cases = st.fixed_dictionaries({"vcv": st.one_of(psd_cond(), psd_cond(), tie_matrices())})
 
+def _ellipse_lines(rnd):
+    """The horizontal block turned through all orientations (0..180 deg) at a seeded pair of eigenvalues, and its axis ratio walked
+    from 1e-8 to 1 (log-spaced) at a seeded orientation; two lines each."""
+    out = []
+    for rep in range(2):
+        scale = 10.0 ** rnd.uniform(-8.0, 0.0)
+        ratio = [rnd.uniform(0.05, 0.95), 10.0 ** rnd.uniform(-6.0, -0.001)][rep]
+        theta = rnd.uniform(0.0, 180.0)
+        up = scale * rnd.uniform(0.0, 3.0)
+
+        def make(th, ra, sc=scale, u=up):
+            s_, c_ = math.sin(math.radians(th)), math.cos(math.radians(th))
+            l1, l2 = sc, sc * ra
+            # major axis at bearing th (clockwise from north = second axis): direction (sin, cos)
+            e2, n2, en = l1 * s_ * s_ + l2 * c_ * c_, l1 * c_ * c_ + l2 * s_ * s_, (l1 - l2) * s_ * c_
+            return {"vcv": [[e2, en, 0.0], [en, n2, 0.0], [0.0, 0.0, u]]}
+        out.append((1.0, lambda f, ra=ratio, mk=make: mk(180.0 * f, ra)))
+        out.append((1.0, lambda f, th=theta, mk=make: mk(th, 10.0 ** (-8.0 * (1.0 - f)))))
+    return out
+
+
 SUBCHECKS = [
     SubCheck("local_frame", check_frame, strategy=frame_cases, nontrivial=_nt_rot, classes=_cls, quick=3000, thorough=200000,
              shards_quick=2, shards_thorough=8,
@@ -438,6 +459,9 @@ SUBCHECKS = [
              rule="3x1 column treated as a diagonal matrix, rotated diagonal returned as 3x1 (both directions)"),
     SubCheck("error_ellipse", check_ellipse, strategy=ell_cases, classes=_cls, quick=3000, thorough=200000, shards_quick=2,
              shards_thorough=8, rule="a^2, b^2 = eigenvalues of the 2x2 block (a >= b >= 0, singular input included); orientation = bearing of the major axis"),
+    SubCheck("error_ellipse_sweeps", check_ellipse, enumerate=S.sweeps(1616, _ellipse_lines, 20000, 400000), classes=_cls,
+             shards_quick=4, shards_thorough=8,
+             rule="stratified sweeps: the horizontal block through every orientation and through axis ratios 1e-8..1 (20 000 / 400 000 lattice points per line, 4 lines, seeded)"),
     SubCheck("relative_error", check_relative, strategy=relative_cases(), classes=_cls, quick=2000, thorough=100000,
              shards_quick=2, shards_thorough=8,
              fresh=(8, 64, 3), rule="ellipse and up sigma of R^T (var1 + var2 - cov12 - cov12^T) R with a non-symmetric cov12 block from a valid joint covariance"),
